@@ -44,7 +44,7 @@ STD_AXIOMS = (
 )
 
 
-STD_PREFIXES = ("Uint63.", "PrimInt63.", "Sint63.")   # primitive machine integers (used by the Interval tactic), declared by the standard library
+STD_PREFIXES = ("Uint63.", "PrimInt63.", "Sint63.", "FloatAxioms.", "PrimFloat.")   # primitive machine integers (used by the Interval tactic), declared by the standard library
 
 
 def std_axiom(a):
@@ -337,15 +337,28 @@ def run_check(pid, tier, seed, replay=None):
     # correspondence ------------------------------------------------------------------------
     rng = random.Random((seed * 1000003) ^ int(hashlib.sha256(pid.encode()).hexdigest()[:8], 16))
     ctx = dict(tier=tier, seed=seed, rng=rng, extract=info, broken=not all(o[1] for o in obligations))
-    if replay:
-        payload = json.load(open(replay))
-        result = mod.run(ctx, only=payload.get("cases") or [payload.get("case")])
-    else:
-        result = mod.run(ctx)
-        if (not all(o[1] for o in obligations) or result["mism"]) and not result["viol"] and hasattr(mod, "search"):
+    empty = dict(evaluations=0, distinct_nontrivial=0, mism=[], viol=[], declined=0, errors=[], samples=[], distribution={}, obligations=[])
+    try:
+        if replay:
+            payload = json.load(open(replay))
+            result = mod.run(ctx, only=payload.get("cases") or [payload.get("case")])
+        else:
+            result = mod.run(ctx)
+    except Exception as e:  # noqa: BLE001 - the harness itself could not run against this tree
+        import traceback
+        result = dict(empty)
+        result["obligations"] = [("correspondence harness runs against the current tree", False, traceback.format_exc()[-1500:])]
+    if not replay:
+        broken_now = not all(o[1] for o in obligations) or result["mism"] or not all(o[1] for o in result.get("obligations", []))
+        extra = None
+        if broken_now and not result["viol"] and hasattr(mod, "search"):
             # something is no longer shown: look harder for a concrete failing input
-            extra = mod.search(ctx, result)
-            if extra:
+            try:
+                extra = mod.search(ctx, result)
+            except Exception:  # noqa: BLE001
+                extra = None
+        if extra:
+            if True:
                 result["viol"] += extra.get("viol", [])
                 result["evaluations"] += extra.get("evaluations", 0)
                 notes.append("search: %s" % extra.get("note", ""))
